@@ -592,6 +592,22 @@ def gen_C09(rng, tier):
         pc['max_memory_per_child'] = 5000
     pc['lost_worker_timeout'] = rng.choice([1.0, 2.0])
     ops = case['users'][0]
+    if rng.random() < 0.1:
+        # every worker reaches its quota at the same instant and nothing is accepted afterwards: one supervision
+        # pass replaces them all; leaving on schedule is not a restart and uses up no restart budget
+        pc['processes'] = rng.choice([2, 3, 4])
+        pc['maxtasksperchild'] = 1
+        pc['max_memory_per_child'] = None
+        pc['max_restarts'] = rng.randint(1, pc['processes'] - 1)
+        pc['max_restart_freq'] = rng.choice([1.0, 3.0])
+        ops.append(['sleep', 2.5])
+        for rnd in range(rng.randint(1, 2)):
+            d = rng.choice([0.3, 0.6])
+            for _ in range(pc['processes']):
+                ops.append(['apply', c.uid(), [['sleep', d], ['ret', rng.randint(0, 999)]], {}])
+            ops.append(['sleep', 2.0])
+            ops.append(['check_size'])
+        return case
     for _ in range(rng.randint(2, 7)):
         r = rng.random()
         if r < 0.5:
